@@ -96,7 +96,6 @@ def run(ck):
     ck.props()
     rnd = random.Random(ck.seed)
     scale = 1 if ck.tier == "quick" else 20
-    G.probe_bytes_offset_fetch()      # F-C07-3 belongs to C07; here it only decides whether bytes names are generated for offset fetch
 
     def run_batch(ck, label, hists):
         return G.run_batch(ck, label, hists, PID, THEOREMS)
